@@ -218,3 +218,28 @@ def history_graphs(rng, ncalls, maxn=6):
         elif i in private: n = private[i]; out.append((n, [(0, n - 3, 1), (n - 3, n - 2, 1), (n - 2, n - 1, 1), (n - 1, 0, 1)]))
         else: out.append(structural(rng, maxn))
     return out
+
+
+# --------------------------------------------------------------------------------------------------------------------
+# families aimed at the (2k-1) bound of the approximate algorithms (C06): inputs on which a non-shortest closing path or a
+# too sparse spanner costs more than the factor allows
+# --------------------------------------------------------------------------------------------------------------------
+def petal_gadget(m, W):
+    """two hubs x = 0 and v = 1 joined by one heavy edge W; m petals s_i: a light edge s_i-x, a light path s_i-a_i-b_i-v and an edge s_i-v of
+    weight 2 (dropped by the spanner for k >= 2).  The closing path of s_i-v must use the light 3-hop path; a Dijkstra that keeps the FIRST
+    discovered predecessor routes every closing path over the heavy edge (seeded change C06/m3 = r3m1)."""
+    es = [(0, 1, W)]
+    nxt = 2
+    for _ in range(m):
+        s, a, b = nxt, nxt + 1, nxt + 2; nxt += 3
+        es += [(s, 0, 1), (s, a, 1), (a, b, 1), (b, 1, 1), (s, 1, 2)]
+    return (nxt, es)
+
+
+def path_with_chords(n, spans, wp=10, wc=11):
+    """a path 0..n-1 (weight wp) plus all chords of the given spans (weight wc): the optimum uses short cycles through the chords, a spanner
+    that is too sparse closes every chord along the path (seeded change C06/r3m2: hop limit 2^k-1 instead of 2k-1, visible for k >= 5)."""
+    es = [(i, i + 1, wp) for i in range(n - 1)]
+    for sp in spans:
+        es += [(i, i + sp, wc) for i in range(n - sp)]
+    return (n, es)
